@@ -140,6 +140,9 @@ def main():
                 if r:
                     print(json.dumps(r))
     elif cmd == "run":
+        merge = "--merge" in sys.argv
+        if merge:
+            sys.argv.remove("--merge")
         ids = sys.argv[2:] or sorted(d for d in os.listdir(SEEDED) if os.path.isdir(os.path.join(SEEDED, d)) and d != "benign")
         props = registered_props()
         results = {}
@@ -153,7 +156,7 @@ def main():
                 status = "CAUGHT(own)" if own in r["fired"] else ("caught(other)" if r["fired"] else ("ERROR" if r["errors"] else "MISSED"))
                 print(f"{r['id']:8s} {status:14s} fired={ {k: v[:1] for k, v in r['fired'].items()} } errors={r['errors']}")
                 results[r["id"]] = r
-                if not sys.argv[2:]:
+                if not sys.argv[2:] or merge:
                     with open(os.path.join(SEEDED, "RESULTS.json"), "w") as fh:
                         json.dump(results, fh, indent=1, sort_keys=True)
 
